@@ -264,3 +264,12 @@ def write_replay(pid, obj):
     with open(p, 'w') as f:
         json.dump(obj, f, indent=1, default=str)
     return p
+
+
+def native_unit(tag, rel_file, module_text, test_path, input_text, timeout=120):
+    """append a #[cfg(test)] module to one source file of a scratch copy, run one test of it with VERIF_INPUT set;
+    -> (exit status, list of lines printed after the VERIF_OUT marker)"""
+    exe = native_test_binary(tag, {rel_file: module_text})
+    rc, out, err = run_native_test(exe, test_path, env={'VERIF_INPUT': input_text}, timeout=timeout)
+    lines = [l.split('VERIF_OUT ', 1)[1] for l in out.splitlines() if 'VERIF_OUT ' in l]
+    return rc, lines, out + err
